@@ -96,6 +96,8 @@ type Check struct {
 	rec    *ev.Recorder
 	oracle Oracle
 
+	noMinimise bool // grammar-membership checks: a shrunk input would leave the domain
+
 	wdMu    sync.Mutex
 	wdSlots []*wdSlot
 	hangSec int
@@ -229,7 +231,7 @@ func (c *Check) Finish() {
 // minimise: byte-wise delta debugging on In (and In2 when both must stay equal
 // length is not required): drop a byte / replace by 'a' while the oracle keeps failing.
 func (c *Check) minimise(v ev.Violation) ev.Violation {
-	if len(v.C.In) > 4096 || v.C.In2 != "" {
+	if c.noMinimise || len(v.C.In) > 4096 || v.C.In2 != "" {
 		return v
 	}
 	deadline := time.Now().Add(5 * time.Second)
